@@ -309,3 +309,39 @@ Proof.
       - rewrite H1, H2. reflexivity. }
     rewrite <- !orb_assoc in *. rewrite G. apply orb_true_r.
 Qed.
+
+(** ---- the addr list: every entry is mapped on its own, with the URL's host as the only context ---- *)
+Lemma addr_entry_hosted e uhost a h p : split_host_port e a = (h, p) -> h <> [] -> p <> [] ->
+  snd (parse_addr e uhost a) = join_host_port h p.
+Proof. intros H Hh Hp. unfold parse_addr. rewrite H. destruct h; [contradiction|]. destruct p; [contradiction|]. reflexivity. Qed.
+
+(** an entry without a host (":port", or anything net.SplitHostPort rejects: no port at all) takes the URL's u.Host
+    verbatim, or "localhost" when the URL has none; a missing port is 6379 *)
+Lemma addr_entry_hostless e uhost a p : split_host_port e a = ([], p) ->
+  snd (parse_addr e uhost a) =
+  join_host_port (match uhost with [] => b "localhost" | _ => uhost end) (match p with [] => b "6379" | _ => p end).
+Proof. intros H. unfold parse_addr. rewrite H. destruct uhost; destruct p; reflexivity. Qed.
+
+Theorem addr_entries e u o : parse_url e u = Ok o ->
+  forall i a, nth_error (q_all (query u) (b "addr")) i = Some a ->
+  nth_error (init_address o) (S i) = Some (snd (parse_addr e (host u) a)) /\
+  List.length (init_address o) = S (List.length (q_all (query u) (b "addr"))).
+Proof.
+  intros H i a Hi. destruct (mapping_parts e u o H) as (_ & _ & _ & _ & Ha & _). rewrite Ha.
+  destruct (is_unix_scheme (scheme u)); cbn [app nth_error List.length]; rewrite map_length; (split; [|reflexivity]);
+    erewrite map_nth_error by exact Hi; reflexivity.
+Qed.
+
+(** the two known deviations from "an entry without a host takes the URL's host, an entry without a port takes 6379":
+    (1) an entry WITHOUT A PORT ("h3") is rejected as a whole by net.SplitHostPort, so its host is lost too;
+    (2) the default host is u.Host as it stands, i.e. with the URL's own port or brackets *)
+Lemma addr_portless_loses_host e uhost a : split_host_port e a = ([], []) ->
+  snd (parse_addr e uhost a) = join_host_port (match uhost with [] => b "localhost" | _ => uhost end) (b "6379").
+Proof. intro H. now rewrite (addr_entry_hostless e uhost a []). Qed.
+
+Lemma addr_default_host_verbatim e uhost a p : split_host_port e a = ([], p) -> p <> [] -> contains_byte 58 uhost = true ->
+  snd (parse_addr e uhost a) = (91 :: uhost) ++ (93 :: 58 :: p).
+Proof.
+  intros H Hp Hc. rewrite (addr_entry_hostless e uhost a p H). destruct uhost; [discriminate|]. destruct p; [contradiction|].
+  unfold join_host_port. now rewrite Hc.
+Qed.
